@@ -156,32 +156,28 @@ impl Stringify for Node {
 
 /// Write a node list.
 ///
-/// Comments are not printed, but two text nodes that were separated by a comment stay separated
+/// Comments are not printed, and `<import>`, `<wxs>` and `<template name>` elements are printed
+/// elsewhere, but two text nodes that were separated by one of them stay separated
 /// (otherwise they would be read back as a single text node, or even fuse into other syntax).
 fn write_nodes<'s, W: FmtWrite>(nodes: &[Node], stringifier: &mut Stringifier<'s, W>) -> FmtResult {
     let mut prev_is_text = false;
-    let mut comment_skipped = false;
     for node in nodes {
         match node {
-            Node::Comment(..) => {
-                comment_skipped = prev_is_text;
-            }
+            Node::Comment(..) => {}
             Node::Text(value) if is_empty_value(value) => {
                 // prints nothing
                 node.stringify_write(stringifier)?;
             }
             Node::Text(..) => {
-                if prev_is_text && comment_skipped {
+                if prev_is_text {
                     stringifier.write_str("<!---->")?;
                 }
                 node.stringify_write(stringifier)?;
                 prev_is_text = true;
-                comment_skipped = false;
             }
             Node::Element(..) | Node::UnknownMetaTag(..) => {
                 node.stringify_write(stringifier)?;
                 prev_is_text = false;
-                comment_skipped = false;
             }
         }
     }
